@@ -437,10 +437,50 @@ def rule_records(facts):
     return r
 
 
+def rule_read_tag(facts):
+    r = report.RuleResult("C06.R4", "a magic is accepted only after all of its bytes were read and compared")
+    b = None
+    for x in facts.bodies:
+        if x.promoted is None and short(x.name).endswith("util::read_tag"):
+            b = x
+    r.need("decode::util::read_tag", b is not None)
+    if b is None:
+        return r
+    tm = Terms(b)
+    c = flow.cfg(b)
+    r.sites = 2
+    # every Ok(value) returned: value must be the comparison of the whole tag with bytes read by an exact read of
+    # tag.len() bytes - a constant `true`, or a value not derived from a full comparison, accepts a truncated magic
+    oks = []
+    for blk in b.blocks:
+        if blk.cleanup:
+            continue
+        for s_ in blk.stmts:
+            if s_.k == "assign" and s_.place.local == 0 and not s_.place.proj and s_.rv.k == "aggregate" and s_.rv.agg == "adt" and \
+                    s_.rv.adt_name.endswith("Result") and s_.rv.variant == 0:
+                oks.append((blk.idx, tm.of_operand(s_.rv.ops[0])))
+    r.need("Ok(..) return of read_tag", bool(oks))
+    for bb, t in oks:
+        full = has_call(t, "PartialEq::eq") or has_call(t, "cmp::impls::eq") or has_call(t, "PartialEq::ne") or \
+            flow.term_has(t, lambda q: q[0] in ("Eq", "Ne"))
+        exact = has_call(t, "read_exact") or any((flow.declared(x.term) or "").endswith("read_exact") and c.dominates(x.idx, bb) for x in b.calls())
+        sized = flow.term_has(t, lambda q: q[0] == "call" and q[1].endswith("from_elem") and has_call(q, "::len") and has_arg(q)) or \
+            any((flow.callee(x.term) or "").endswith("from_elem") and has_call(tm.of_operand(x.term.args[1]), "::len") for x in b.calls())
+        if t[0] == "const" or (t[0] == "phi" and any(isinstance(x, tuple) and x[0] == "const" and x[1] == 1 for x in t[1])):
+            r.bad("read_tag|constant", "read_tag can return Ok(true) without having compared the whole tag (e.g. when the input ends early)",
+                  "%s (%s)" % (short(b.name), b.blocks[bb].term.span))
+        elif full and exact and sized and has_arg(t):
+            r.ok("term", {"read_tag": "Ok(buf == tag) after read_exact of tag.len() bytes"})
+        else:
+            r.bad("read_tag|shape", "cannot verify that read_tag compares all bytes of the tag after reading exactly tag.len() bytes: %s"
+                  % flow.show(t)[:100], "%s (%s)" % (short(b.name), b.blocks[bb].term.span), "unverifiable")
+    return r
+
+
 def run(ctx, t0):
     facts = ctx.facts()
     r1, r3 = rule_table(facts)
-    rules = [r1, rule_digest(facts), r3, rule_records(facts)]
+    rules = [r1, rule_digest(facts), r3, rule_records(facts), rule_read_tag(facts)]
     # rows 3, 4 and 20 are decided by the C18 rules (reserved bits, id table, trailing data)
     rules.append(C18.rule_reserved(facts))
     rules.append(C18.rule_trailing(facts))
